@@ -1,4 +1,5 @@
 import PortusModel.Props.C12
+import PortusModel.Props.Vertical
 import PortusModel.Props.Tables
 #print axioms Portus.C12.get_field_spec
 #print axioms Portus.C12.get_field_no_panic
@@ -7,5 +8,7 @@ import PortusModel.Props.Tables
 #print axioms Portus.C12.value_is_own_slot
 #print axioms Portus.C12.declared_report_variable_reads_its_slot
 #print axioms Portus.C12.check_model
+#print axioms Portus.Vertical.reported_values_reach_the_decoder
+#print axioms Portus.Vertical.flow_reads_value_by_name
 #print axioms Portus.Tables.src_getFieldTable_eq
 #print axioms Portus.Tables.src_getField_eq
